@@ -1,7 +1,7 @@
 // simprep rewrites the non-test Go files of a package directory into a
 // scratch directory so that the program runs under the simulator:
 //
-//	R1 imports "net" -> verif/sim/simnet, "sync" -> verif/sim/simsync (same local names)
+//	R1 imports "net" -> verif/sim/simnet, "sync" -> verif/sim/simsync, "sync/atomic" -> verif/sim/simatomic (same local names)
 //	R2 go f(a, b)      -> { f_, a_, b_ := f, a, b; simrt.Go(func(){ f_(a_, b_) }) }
 //	R3 ch <- v / <-ch  -> simrt.Send / simrt.Recv / simrt.Recv2, range over channel
 //	R4 select          -> switch simrt.Select(hasDefault, cases...)
@@ -152,6 +152,12 @@ func (rw *rewriter) file(f *ast.File) {
 				imp.Name = ast.NewIdent("sync")
 			}
 			rep.Rules["R1-sync"]++
+		case "sync/atomic":
+			imp.Path.Value = strconv.Quote("verif/sim/simatomic")
+			if imp.Name == nil {
+				imp.Name = ast.NewIdent("atomic")
+			}
+			rep.Rules["R1-atomic"]++
 		}
 	}
 	for _, d := range f.Decls {
